@@ -3,6 +3,7 @@
 package vs
 
 import (
+	"sort"
 	"fmt"
 	"reflect"
 	"runtime"
@@ -98,32 +99,47 @@ func memAccess(m interface{}, write bool) {
 }
 
 // DeepRead: v is about to be serialised by reflection (encoding/json): a read of every map held
-// in an exported field of the struct v (points to), one level deep. Returns v.
+// in an exported field of the struct v (points to), and - one level further - of the maps of the
+// structs those maps point to (a record and the records nested in it). Returns v.
 func DeepRead[T any](v T) T {
 	if !RaceMode || Cur == nil {
 		return v
 	}
-	rv := reflect.ValueOf(v)
+	deepRead(reflect.ValueOf(v), 1)
+	return v
+}
+
+func deepRead(rv reflect.Value, more int) {
 	for rv.Kind() == reflect.Ptr || rv.Kind() == reflect.Interface {
 		if rv.IsNil() {
-			return v
+			return
 		}
 		rv = rv.Elem()
 	}
 	if rv.Kind() == reflect.Map {
 		memAccess(rv.Interface(), false)
-		return v
+		return
 	}
 	if rv.Kind() != reflect.Struct {
-		return v
+		return
 	}
 	for i := 0; i < rv.NumField(); i++ {
 		f := rv.Field(i)
-		if f.Kind() == reflect.Map && !f.IsNil() && rv.Type().Field(i).IsExported() {
-			memAccess(f.Interface(), false)
+		if f.Kind() != reflect.Map || f.IsNil() || !rv.Type().Field(i).IsExported() {
+			continue
+		}
+		memAccess(f.Interface(), false)
+		if more > 0 && f.Type().Elem().Kind() == reflect.Ptr && f.Type().Elem().Elem().Kind() == reflect.Struct && f.Type().Key().Kind() == reflect.String {
+			keys := []string{}
+			for _, k := range f.MapKeys() {
+				keys = append(keys, k.String())
+			}
+			sort.Strings(keys)
+			for _, k := range keys {
+				deepRead(f.MapIndex(reflect.ValueOf(k).Convert(f.Type().Key())), more-1)
+			}
 		}
 	}
-	return v
 }
 
 // R / W: explicit read / write of the location p points to (field accesses).
